@@ -93,7 +93,14 @@ def c19():
     for nk in (1, 2, 3):
         for combo in itertools.product(vals, repeat=nk):
             grids.append({k: list(v) for k, v in zip(keys, combo)})
-    multi = [[grids[0], grids[5]], [grids[7], {}, grids[2]], [{}], [grids[20], grids[1], grids[9]]]
+    # the same grids with the keys inserted in another order, and with realistic (non-alphabetical) parameter names
+    for g in list(grids):
+        if len(g) >= 2:
+            grids.append({k: g[k] for k in reversed(list(g))})
+    grids += [{"population_size": [10, 20], "max_cycles": [5, 7]}, {"w": [1, 2], "c2": [3], "c1": [4, 5]},
+              {"population_size": [10, 20], "max_cycles": [5, 7], "alpha": [1, 2, 3]}]
+    multi = [[grids[0], grids[5]], [grids[7], {}, grids[2]], [{}], [grids[20], grids[1], grids[9]],
+             [{"z": [1, 2], "y": [3, 4]}, {"b": [1], "a": [2, 3]}]]
     for g in grids + multi:
         G = ParameterGrid(g)
         lst = list(G)
@@ -152,13 +159,21 @@ def c19():
         # score tables whose best mean has the larger spread (3 trials, run one at a time so that the k-th call gets the k-th value)
         vtables = [({"1,0,0": [1.0, 9.0, 5.0], "2,0,0": [6.0, 6.0, 6.0], "3,0,0": [6.5, 7.5, 7.0]}, "min", 5.0),
                    ({"1,0,0": [9.0, 9.0, 9.0], "2,0,0": [8.0, 12.0, 10.0], "3,0,0": [9.5, 9.4, 9.6]}, "max", 10.0)]
+        # near-tied means: the optimum must win by its mean however small the margin (well-converged runs: costs ~1e-8)
+        vtables += [({"1,0,0": [3e-8, 3e-8, 3e-8], "2,0,0": [1e-8, 4e-8, 2.5e-8], "3,0,0": [1.0, 1.0, 1.0]}, "min", 2.5e-8),
+                    ({"1,0,0": [0.75000001, 0.75000001, 0.75000001], "2,0,0": [0.65000004, 0.85000004, 0.75000004], "3,0,0": [0.1, 0.1, 0.1]},
+                     "max", 0.75000004),
+                    ({"1,0,0": [2.0000002, 2.0000002, 2.0000002], "2,0,0": [1.0000001, 3.0000001, 2.0000001], "3,0,0": [5.0, 5.0, 5.0]}, "min", 2.0000001)]
         for table, mm, best in vtables:
             log = os.path.join(tmp, f"log_{len(os.listdir(tmp))}.jsonl")
             open(log, "w").close()
             task = F["tasks"]["TaskA"](variables=F["V"](), minmax=mm, data={"table": table, "log": log})
             ht = HyperTuner(F["Opt"](), {"a": [1, 2, 3]})
             ht.execute(task, n_trials=3, n_jobs=2)
-            law(f"execute with differing variances {mm}: best mean wins whatever the spread", ht.best_score == best,
+            tol = 1e-12 * max(1.0, abs(best))
+            best_a = [int(k.split(",")[0]) for k, v in table.items() if abs(sum(v) / len(v) - best) <= tol][0]
+            law(f"execute with differing variances {mm} (optimum {best}): best mean wins whatever the spread",
+                abs(ht.best_score - best) <= tol and ht.best_parameters == {"a": best_a},
                 f"best_score {ht.best_score}, best_parameters {ht.best_parameters}, optimum {best}")
         # the same tuner executed twice: the second call answers for the second call only
         log = os.path.join(tmp, "log_twice.jsonl")
@@ -240,7 +255,7 @@ def c20():
                     names = sorted(a.name for a in algos)
                     ok = len(files) == n and sorted(os.path.dirname(f) for f in files) == names
                     law(f"export {fmt}: one file per algorithm under <save_path>/<algorithm name>/", ok, f"{files}")
-        for bad in (("bogus",), ("serial", "turbo")):
+        for bad in (("bogus",), ("serial", "turbo"), ("SERIAL",), ("thread", "THREAD"), ("Process",), ("",), ("ModeSolver.SERIAL",)):
             try:
                 Multitask((F["Opt"](F["Config"](log=log)), F["OptB"](F["Config"](log=log))), (task_classes[0](variables=F["V"]()),), modes=bad)
                 law(f"unknown mode {bad} rejected at construction", False, "accepted")
